@@ -88,6 +88,13 @@ type solveOut struct {
 
 func firstLine(s string) string {
 	s = strings.TrimSpace(s)
+	for strings.HasPrefix(s, "WARNING") {
+		i := strings.IndexByte(s, '\n')
+		if i < 0 {
+			return ""
+		}
+		s = strings.TrimSpace(s[i+1:])
+	}
 	if i := strings.IndexByte(s, '\n'); i >= 0 {
 		return strings.TrimSpace(s[:i])
 	}
